@@ -9,9 +9,9 @@
     [ordered] = strictly increasing, disjoint; [line_of] = an independent newline count.
 
     Option sets: [gen_scan_opts] is dumped from migrate.Stmts and the three drivers' ScanStmts on
-    every run; [supported] = no GO batch command, no BEGIN TRY/END CATCH matching. *)
+    every run; [supported] = no GO batch command (BEGIN TRY/END CATCH matching is covered). *)
 From Coq Require Import List NArith ZArith Bool.
-From Atlas Require Import Base.Bytes Lex.LexModel Lex.LexProofs Lex.LexDrivers gen.Gen_ScanOpts.
+From Atlas Require Import Base.Bytes Lex.LexModel Lex.LexProofs Lex.LexDrivers Lex.LexMemo gen.Gen_ScanOpts.
 Import ListNotations.
 Open Scope Z_scope.
 
@@ -50,13 +50,19 @@ Theorem C08_total : forall o inp,
 Proof. intros o inp Ho. exact (scan_total o inp (in_driver_supported o Ho)). Qed.
 Print Assumptions C08_total.
 
-(** the same three statements for *every* option set without GoCommand / MatchBeginTryCatch. *)
+(** the same statements for *every* option set without GoCommand (incl. MatchBeginTryCatch, whose
+    scanner moves backwards, BeginEndTerminator and OmitDelimiter). *)
 Theorem C08_lossless_all_supported : forall o inp ss,
   supported o = true -> scan o inp = Ok ss ->
   (exists hdr d0 rest, inp = hdr ++ rest /\ Header inp hdr d0 /\ Lossless o d0 (zlen hdr) rest ss)
   /\ Forall (TextAt inp) ss /\ ordered 0 ss.
 Proof. intros o inp ss Hs H. exact (conj (scan_lossless o inp ss Hs H) (scan_positions o inp ss Hs H)). Qed.
 Print Assumptions C08_lossless_all_supported.
+
+Theorem C08_total_all_supported : forall o inp,
+  supported o = true -> scan o inp <> OutOfFuel /\ scan o inp <> Panic.
+Proof. exact scan_total. Qed.
+Print Assumptions C08_total_all_supported.
 
 (** why GoCommand is excluded (no OSS driver enables it): with it the reported position is
     wrong — [Pos] of "SELECT 1" in "SELECT 1\nGO\n" is 2. Reproduced on the Go code by the tie. *)
@@ -70,34 +76,78 @@ Proof.
 Qed.
 Print Assumptions C08_positions_gocommand_refuted.
 
-(** Running time is *not* linear (finding C08-exponential-nested-begin; the functional model has no
-    cost semantics, so the statement is about which nested scans the outer loop starts). On
-    "BEGIN " x 8 the loop of [stmt] starts a fresh nested scanner on *each* of the 8 proper suffixes
-    "BEGIN " x j (j < 8): the nested scanner is replaced by one that fails at once on every input
-    (what the real one does on these inputs, after scanning them) except that it is [Panic] on the
-    suffix looked for. The same holds inside every nested scan, so the number of scans obeys
-    T(k) = 1 + T(0) + ... + T(k-1) = 2^k. Measured on the Go code: x20 1.5 s, x24 25 s. *)
+(** Nested block scans (fix C08-nested-begin, notes/fixes/C08-nested-begin.diff). Evaluated naively,
+    the scanner re-scans the rest of the input at every block opener in every enclosing scanner:
+    on "BEGIN " x 8 the loop of [stmt] starts a nested scan on each of the 8 proper suffixes (the
+    nested scanner is replaced by one that fails at once — what the real one does on these inputs —
+    except that it is [Panic] on the suffix looked for), and so does every nested scan:
+    T(k) = 1 + T(0) + ... + T(k-1) = 2^k scans (measured before the fix: x20 1.5 s, x24 25 s). *)
 Definition begins (k : nat) : bytes := concat (repeat ([66;69;71;73;78;32]%N) k).
 Definition poisoned (target : bytes) (b : scanner) : res (scanner * option Stmt) :=
   if bytes_eqb (input b) target then Panic else Err (mkErr EEofCompound 0 0).
-Theorem C08_linear_time_refuted : forall j, (j < 8)%nat ->
+Theorem C08_unmemoized_rescan_witness : forall j, (j < 8)%nat ->
   stmt_loop opts_sqlite (poisoned (begins j)) 100
             (mkScanner (begins 8) (begins 8) 0 0 0 delimiter [] false) 0 0 = Panic.
 Proof.
   intros j H. do 8 (destruct j as [|j]; [vm_compute; reflexivity|]). exfalso.
   repeat (apply le_S_n in H). inversion H.
 Qed.
-Print Assumptions C08_linear_time_refuted.
+Print Assumptions C08_unmemoized_rescan_witness.
+
+(** The fixed Go code keeps a table of the block scans that failed, keyed by block kind and by the
+    length of the text after the opener, shared by all nested scanners of one [Scan], and does not
+    start such a scan again. The table is an evaluation device (the model, an input/output
+    specification, has none; outputs are compared on every case). What makes it sound: every
+    scanner works on a suffix of the same text, so the length identifies the text
+    ([LexMemo.suffix_len_eq]), and whether a block scan fails — and how far it advances when it
+    succeeds — does not depend on the scanner that starts it: *)
+Theorem C08_block_scan_context_free : forall o nested f s s',
+  wf s -> wf s' -> 1 <= pos s -> 1 <= pos s' -> delim s = delim s' ->
+  skipn (Z.to_nat (pos s - 1)) (input s) = skipn (Z.to_nat (pos s' - 1)) (input s') ->
+  same_outcome s s' (skipBegin o nested f s) (skipBegin o nested f s') /\
+  same_outcome s s' (skipBeginAtomic nested f s) (skipBeginAtomic nested f s') /\
+  same_outcome s s' (skipBeginTryCatch nested f s) (skipBeginTryCatch nested f s').
+Proof.
+  intros o nested f s s' W W' P P' D T.
+  exact (conj (skipBegin_context_free o nested f s s' W W' P P' D T)
+        (conj (skipBeginAtomic_context_free nested f s s' W W' P P' D T)
+              (skipBeginTryCatch_context_free nested f s s' W W' P P' D T))).
+Qed.
+Print Assumptions C08_block_scan_context_free.
+
+(** ... and what makes the work bounded: a table that receives only keys it does not hold yet,
+    over texts of at most [n] bytes, never holds more than [3 * (n + 1)] keys — at most that many
+    nested block scans fail during one [Scan] of an [n]-byte input, however they nest (each of
+    them reads at most [n] bytes; measured after the fix: "BEGIN " x 1600 = 9.6 kB in 1.0 s,
+    quadratic). A successful block scan consumes its block in the scanner that started it. *)
+Theorem C08_failed_block_scans_bounded : forall n (ks : list key),
+  Forall (fun k => (snd k <= n)%nat) ks ->
+  (length (fold_left record ks []) <= 3 * (n + 1))%nat.
+Proof. exact failed_table_bounded. Qed.
+Print Assumptions C08_failed_block_scans_bounded.
 
 (** the linear fuel is a depth bound, not a step count: on k unterminated BEGINs every BEGIN
     re-scans the rest of the input in a nested scanner (2^k nested scans in the Go code too);
     the model still terminates within [fuel_of]. *)
+Example C08_ex_failed_table :
+  fold_left record [(KBegin, 12%nat); (KBegin, 6%nat); (KBegin, 12%nat); (KAtomic, 6%nat)] [] =
+    [(KAtomic, 6%nat); (KBegin, 6%nat); (KBegin, 12%nat)].
+Proof. vm_compute. reflexivity. Qed.
 Example C08_ex_total_nested_begins :
   let inp := (concat (repeat ([66;69;71;73;78;32]%N) 6)) in   (* "BEGIN BEGIN BEGIN BEGIN BEGIN BEGIN " *)
   scan opts_sqlite inp = Ok [mkStmt 0 (firstn 35 inp) []].
 Proof. vm_compute. reflexivity. Qed.
 
 (** ** non-vacuity *)
+(* "BEGIN TRY\nx;\nEND TRY\nBEGIN CATCH\ny;\nEND CATCH\nz;" with MatchBeginTryCatch: the block is one
+   statement although the scanner rewinds after END CATCH *)
+Definition opts_try := mkOpts false false true false false false false false false false.
+Example C08_ex_trycatch :
+  supported opts_try = true /\
+  exists t1, scan opts_try [66;69;71;73;78;32;84;82;89;10;120;59;10;69;78;68;32;84;82;89;10;66;69;71;73;78;32;67;65;84;67;72;10;121;59;10;69;78;68;32;67;65;84;67;72;10;122;59]%N
+             = Ok [mkStmt 0 t1 []; mkStmt 46 [122;59]%N []] /\ length t1 = 45%nat.
+Proof. split; [reflexivity|]. eexists. split; [vm_compute; reflexivity|reflexivity]. Qed.
+
 (* "-- atlas:delimiter $$\n-- c\nSELECT 1$$\n/* x */ SELECT 2 $$" *)
 Definition ex_in : bytes :=
   [45;45;32;97;116;108;97;115;58;100;101;108;105;109;105;116;101;114;32;36;36;10;
